@@ -182,11 +182,14 @@ def decorate(G, extra):
     """Extra node / edge attributes with semantically loaded names (scenario field extra_attrs = [name, kind])."""
     if not extra:
         return
-    name, kind = extra
+    name, kind = extra[0], extra[1]
+    decoys = list(extra[2]) if len(extra) > 2 and extra[2] else None      # kind "names": values that look like real annotations
     for k, (u, v) in enumerate(G.edges()):
-        G.edges[u, v][name] = (2 + k % 3) if kind == "int" else (0.5 + (k % 4)) if kind == "float" else f"x{k % 3}"
+        G.edges[u, v][name] = (decoys[(k * 5 + 1) % len(decoys)] if kind == "names" and decoys else
+                               (2 + k % 3) if kind == "int" else (0.5 + (k % 4)) if kind == "float" else f"x{k % 3}")
     for k, v in enumerate(G.nodes()):
-        G.nodes[v][name] = (3 + k % 2) if kind == "int" else (1.5 + (k % 3)) if kind == "float" else f"n{k % 2}"
+        G.nodes[v][name] = (decoys[k % len(decoys)] if kind == "names" and decoys else
+                            (3 + k % 2) if kind == "int" else (1.5 + (k % 3)) if kind == "float" else f"n{k % 2}")
 
 
 def names(spec):
